@@ -43,7 +43,7 @@ def main():
             tag, pid, d = job
             env = dict(os.environ, VERIF_NO_EVIDENCE="1")
             r = subprocess.run([os.path.join(VERIF, "check"), pid, "--root", d], capture_output=True, text=True, env=env)
-            rules = sorted(set(re.findall(r"\[(C\d\d\.[A-Z]\d+[a-z]?)\]", r.stdout)))
+            rules = sorted(set(re.findall(r"\[(C\d\d\.[A-Z]\d+[a-z]?)[\]/]", r.stdout)))
             return tag, pid, r.returncode, rules
         with ThreadPoolExecutor(16) as ex:
             for tag, pid, rc, rules in ex.map(one, jobs):
